@@ -63,8 +63,18 @@ def is_exc(x):
     return isinstance(x, Exc)
 
 
-def close(a, b, rtol=RTOL, atol=ATOL):
-    """Structural closeness of numbers / arrays / tuples / lists / frames."""
+def _scalar(v):
+    return v is None or isinstance(v, (str, bool, int, float, np.number,
+                                       np.bool_))
+
+
+def close(a, b, rtol=RTOL, atol=ATOL, norm=False):
+    """
+    Structural closeness of numbers / arrays / tuples / lists / frames.
+    With ``norm`` the relative tolerance of an array is taken with respect to
+    its largest entry (for gradients whose entries differ by many orders of
+    magnitude and come out of two different integrations).
+    """
     if is_exc(a) or is_exc(b):
         return is_exc(a) and is_exc(b) and a.type == b.type
     if a is None or b is None:
@@ -76,14 +86,14 @@ def close(a, b, rtol=RTOL, atol=ATOL):
     except ImportError:
         pass
     if isinstance(a, (tuple, list)) and isinstance(b, (tuple, list)) and (
-            len(a) == 0 or not np.isscalar(a[0])):
+            any(not _scalar(v) for v in a) or any(not _scalar(v) for v in b)):
         if len(a) != len(b):
             return False
-        return all(close(x, y, rtol, atol) for x, y in zip(a, b))
+        return all(close(x, y, rtol, atol, norm) for x, y in zip(a, b))
     if isinstance(a, dict) and isinstance(b, dict):
         if sorted(a, key=str) != sorted(b, key=str):
             return False
-        return all(close(a[k], b[k], rtol, atol) for k in a)
+        return all(close(a[k], b[k], rtol, atol, norm) for k in a)
     if isinstance(a, str) or isinstance(b, str):
         return a == b
     try:
@@ -104,7 +114,11 @@ def close(a, b, rtol=RTOL, atol=ATOL):
     y = y.astype(float)
     with np.errstate(all='ignore'):
         same = (x == y) | (np.isnan(x) & np.isnan(y))
-        near = np.abs(x - y) <= atol + rtol * np.maximum(np.abs(x), np.abs(y))
+        scale = np.maximum(np.abs(x), np.abs(y))
+        if norm and scale.size:
+            fin = scale[np.isfinite(scale)]
+            scale = np.full(scale.shape, fin.max() if fin.size else 0.0)
+        near = np.abs(x - y) <= atol + rtol * scale
     return bool(np.all(same | (near & np.isfinite(x) & np.isfinite(y))))
 
 
